@@ -58,7 +58,18 @@ JoinFails(e) ==
         ELSE IF a.code # "Success" THEN <<"C16.result">>
         ELSE SuccessFails(e))
 
+\* HomeNSReq (Backend Interfaces sec. 11.1): the home NetID of a known device, UnknownDevEUI otherwise; mirrored ids
+HomeNSFails(e) ==
+  LET a == e.answer IN
+  IF e.panic # "" \/ a.parse # "" THEN <<"C16.result">>
+  ELSE Tag(a.sender = e.receiver /\ a.receiver = e.sender /\ a.txid = e.txid /\ a.msgtype = "HomeNSAns", "C16.mirror")
+    \o Tag(IF e.known THEN a.code = "Success" /\ a.hnetid = e.netid ELSE a.code = "UnknownDevEUI", "C16.result")
+\* malformed requests: answered (no panic, no hang) and never with Success
+BadFails(e) == Tag(e.panic = "" /\ e.code # "Success" /\ e.http >= 400, "C16.malformed")
+
 Fails(e) == CASE e.ev = "joinsrv" -> JoinFails(e)
+              [] e.ev = "homens" -> HomeNSFails(e)
+              [] e.ev = "joinbad" -> BadFails(e)
               [] OTHER -> <<"unknown-event">>
 Init == l = 1 /\ nfail = 0
 Next == /\ l <= Len(Tr)
